@@ -57,8 +57,9 @@ def section_props(section: str) -> dict:
     return {}
 
 
-def field_is_complex(path) -> bool:
-    """is the settings field at `path` list- or dict-typed? (pydantic-settings JSON-decodes the text of such variables)"""
+def field_is_complex(path, strictly=False) -> bool:
+    """is the settings field at `path` list- or dict-typed? (pydantic-settings JSON-decodes the text of such variables)
+    `strictly`: and nothing else (for a union with a scalar type a text that is no JSON stays the text)"""
     nodes = [schema()]
     for k in path:
         nxt = []
@@ -71,9 +72,9 @@ def field_is_complex(path) -> bool:
         nodes = nxt
     for n in nodes:
         n = resolve(n)
-        for alt in n.get("anyOf", [n]):
-            if resolve(alt).get("type") in ("array", "object"):
-                return True
+        kinds = [resolve(alt).get("type") in ("array", "object") for alt in n.get("anyOf", [n]) if resolve(alt).get("type") != "null"]
+        if (all(kinds) and kinds) if strictly else any(kinds):
+            return True
     return False
 
 
@@ -691,6 +692,249 @@ def canon(x):
 
 
 # --------------------------------------------------------------------------------------------
+# texts that are not valid Unicode; malformed values as single assignments; the sources of a configuration
+# --------------------------------------------------------------------------------------------
+# A Python `str` may hold lone surrogates: the JSON / YAML decoders make them of escapes (`"\ud800"`), an undecodable byte of a
+# command-line argument or of an environment variable arrives as U+DC80..U+DCFF (PEP 383). The Lean model's strings are sequences of
+# Unicode scalar values: on the way to the driver the surrogate U+D800+i is written as the private-use character U+E000+i (the
+# generators never use these themselves), and read back on the way out.
+
+NOT_UNICODE = ["h\udcff", "\ud800", "a\ud83d", "\udc00b", "x\udfffy", "\ude00\ud83d", "\udcff", "p\udc80q\udcfe"]
+
+
+def encodable(x) -> bool:
+    """no key and no text anywhere in `x` is a `str` that cannot be encoded (UTF-8)"""
+    if isinstance(x, str):
+        try:
+            x.encode("utf-8")
+            return True
+        except UnicodeEncodeError:
+            return False
+    if isinstance(x, dict):
+        return all(encodable(k) and encodable(v) for k, v in x.items())
+    if isinstance(x, (list, tuple)):
+        return all(encodable(v) for v in x)
+    return True
+
+
+def argv_text(s: str) -> bool:
+    """can the text travel through `argv` / the process environment? (bytes that are not UTF-8 are U+DC80..U+DCFF; no NUL)"""
+    try:
+        os.fsencode(s)
+        return "\x00" not in s
+    except (UnicodeEncodeError, ValueError):
+        return False
+
+
+def _map_chars(x, f):
+    if isinstance(x, str):
+        return f(x)
+    if isinstance(x, dict):
+        return {_map_chars(k, f) if isinstance(k, str) else k: _map_chars(v, f) for k, v in x.items()}
+    if isinstance(x, (list, tuple)):
+        return [_map_chars(v, f) for v in x]
+    return x
+
+
+def _s2p(s: str) -> str:
+    if not any(0xD800 <= ord(c) <= 0xDFFF or 0xE000 <= ord(c) <= 0xE7FF for c in s):
+        return s
+    if any(0xE000 <= ord(c) <= 0xE7FF for c in s):
+        raise ValueError(f"the private-use characters U+E000..U+E7FF stand for lone surrogates on the way to the model: {ascii(s)}")
+    return "".join(chr(ord(c) + 0x800) if 0xD800 <= ord(c) <= 0xDFFF else c for c in s)
+
+
+def _p2s(s: str) -> str:
+    if not any(0xE000 <= ord(c) <= 0xE7FF for c in s):
+        return s
+    return "".join(chr(ord(c) - 0x800) if 0xE000 <= ord(c) <= 0xE7FF else c for c in s)
+
+
+def sur2pua(x):
+    """a request for the model driver: lone surrogates as private-use characters"""
+    return _map_chars(x, _s2p)
+
+
+def pua2sur(x):
+    """an answer of the model driver: back again"""
+    return _map_chars(x, _p2s)
+
+
+ABSENT = "<absent>"
+
+
+def _free_text_prop(section: str) -> str | None:
+    node = resolve(section_props("generate")[section])
+    for k, v in node.get("properties", {}).items():
+        if k != "out" and is_free_text(v) and any(is_free_text(a) for a in _alts(v)):
+            return k
+    return None
+
+
+def malformed_assignments(rng, tree: dict, rot: int = 0) -> list[dict]:
+    """single assignments that make the valid `tree` malformed: {'kind', 'path', 'bad', 'good', 'named'} — the key at `path` given a value
+    `bad` that the documented schema refuses (ill-typed, out of an enumeration, a key that does not exist, a text / key that is not valid
+    Unicode); `good`: a valid value for that key (ABSENT when the key itself is what is wrong or a whole section would be needed);
+    `named`: the dotted key a diagnostic has to name. `text`: the bad value is a text / a list of texts, i.e. every source delivers it as it is."""
+    gens = [k for k, v in tree["generate"].items() if isinstance(v, dict)]
+    g = gens[rot % len(gens)]
+    at = lambda path: next((v for p, v in leaves(tree) if p == path), ABSENT)
+
+    def a(kind, path, bad, good=ABSENT, named=None):
+        cur = at(path)
+        return {"kind": kind, "path": list(path), "bad": bad, "good": cur if cur is not ABSENT and good is not ABSENT else good,
+                "named": named if named is not None else ".".join(path),
+                "text": isinstance(bad, str) or (isinstance(bad, list) and all(isinstance(x, str) for x in bad))}
+    out = [
+        a("unknown-top-key", ("bogus",), "1"),
+        a("unknown-nested-key", ("generate", g, "bogus_key"), "x"),
+        a("unknown-generate-key", ("generate", "bogus_gen", "out"), "x", named="generate.bogus_gen"),
+        a("scalar-for-section", ("generate", g), "text"),
+        a("garbage-for-bool", ("generate", "support_lib_sources"), "maybe", False),
+        a("bad-enum-in-list", ("generate", "default_deriving"), ["eq", "nope"], ["eq"]),
+        a("text-for-list", ("generate", "include_dirs"), "single", ["inc"]),
+        a("bad-list-element", ("generate", "include_dirs"), ["ok", ["nested"]], ["inc"]),
+        a("number-for-path", ("generate", g, "out"), 5, "out/other"),
+        a("list-for-path", ("generate", g, "out"), ["a", "b"], "out/other"),
+        a("null-for-required", ("generate", g, "out"), None, "out/other"),
+    ]
+    if g in ("cpp", "java", "jni", "objc", "cppcli"):
+        out.append(a("bad-identifier-style", ("generate", g, "identifier", "enum"), "shouting", "snake_case"))
+        out.append(a("unknown-identifier-kind", ("generate", g, "identifier", "bogus_kind"), "snake_case"))
+    # texts that are not valid Unicode: in a free text, a path, an item of a list, where an enumerator / a boolean is expected, in a key
+    nu = lambda j: NOT_UNICODE[(rot + j) % len(NOT_UNICODE)]
+    ft = _free_text_prop(g)
+    if ft is not None:
+        out.append(a("not-encodable-text", ("generate", g, ft), nu(0), "hh"))
+    out += [
+        a("not-encodable-text", ("generate", g, "out"), "out/" + nu(1), "out/other"),
+        a("not-encodable-text", ("generate", "include_dirs"), ["inc", "d" + nu(2)], ["inc"]),
+        a("not-encodable-text", ("generate", "default_deriving"), [nu(3)], ["eq"]),
+        a("not-encodable-text", ("generate", "support_lib_sources"), nu(4), True),
+        a("not-encodable-text", ("generate", "list_processed_files"), nu(5) + ".json", "out/report.json"),
+        a("not-encodable-key", ("generate", g, "k" + nu(6)), "x", named="generate." + g),
+        a("not-encodable-key", ("t" + nu(7),), "x", named=""),
+    ]
+    return out
+
+
+SOURCE_RANK = {"dict": 3, "opts": 3, "file": 2, "env": 1, "dotenv": 0}
+
+
+def source_case(parts: dict) -> dict | None:
+    """a `configure` case (`run_configure`) that delivers every tree of `parts` through its source: {'dict' | 'opts' | 'file:<fmt>[~<style>]' |
+    'env' | 'ENV' | 'dotenv': tree}; None when a source cannot express its tree (checked with the format's own decoder for files)"""
+    case = {}
+    for src, tree in parts.items():
+        if not tree:
+            continue
+        if src == "dict":
+            case["options"] = tree
+        elif src == "opts":
+            if has_empty_dict(tree):
+                return None
+            o = to_opts(tree)
+            if o is None:
+                return None
+            case["cli_opts"] = o
+        elif src.startswith("file:"):
+            fmt, _, style = src[5:].partition("~")
+            try:
+                text = styled(tree, fmt, style) if style else None
+                if text is None:
+                    text = {"yaml": to_yaml, "yml": to_yaml, "json": to_json, "toml": to_toml}[fmt](tree)
+                text.encode("utf-8")
+                if canon_typed(decode_text(fmt, text)) != canon_typed(tree):
+                    return None
+            except Exception:  # noqa  (TOML has no null, no text that is not Unicode, …)
+                return None
+            case["file"] = {"name": f"c.{fmt}", "text": text}
+        elif src in ("env", "ENV"):
+            e = to_env(tree, upper=(src == "ENV"))
+            if e is None or not env_verbatim(tree) or not all(argv_text(k) and argv_text(v) and envsafe_name(k) for k, v in e.items()):
+                return None
+            case["env"] = e
+        elif src == "dotenv":
+            e, d = to_env(tree), to_dotenv(tree)
+            if e is None or d is None or not env_verbatim(tree) or not encodable(d) or not all(envsafe_name(k) for k in e):
+                return None
+            case["dotenv"], case["dotenv_vars"] = d, e
+        else:
+            raise ValueError(src)
+    if "options" in case and "cli_opts" in case:
+        raise ValueError("one explicit source per case")
+    if "file" not in case and "options" not in case and "cli_opts" not in case:
+        return None
+    if "options" not in case and "cli_opts" not in case:
+        case["positional_only"] = True
+    return case
+
+
+def env_verbatim(tree: dict) -> bool:
+    """does the environment deliver every value of the tree as it is? A list is written as JSON text, which is decoded only for settings
+    that are list- or dictionary-typed (for a text-typed setting the JSON text itself would be the value)"""
+    return all(not isinstance(v, list) or field_is_complex(p) for p, v in leaves(tree))
+
+
+def envsafe_name(name: str) -> bool:
+    """a variable name whose `__` nesting reads back as the path it was made from (lower-case keys, no `__` inside a key, none at its end)"""
+    body = name[len(ENV_PREFIX):]
+    keys = body.split(ENV_DELIM)
+    return all(k and not k.endswith("_") and not k.startswith("_") for k in keys) and ENV_DELIM.join(keys) == body and encodable(name)
+
+
+def text_only(v) -> bool:
+    return isinstance(v, str) or (isinstance(v, list) and bool(v) and all(isinstance(x, str) for x in v))
+
+
+def set_path(tree: dict, path, value) -> dict:
+    """a copy of `tree` with `value` at `path` (whatever was there or below is replaced)"""
+    out = copy.deepcopy(tree)
+    d = out
+    for k in path[:-1]:
+        if not isinstance(d.get(k), dict):
+            d[k] = {}
+        d = d[k]
+    d[path[-1]] = copy.deepcopy(value)
+    return out
+
+
+def without_path(tree: dict, path) -> dict:
+    """a copy of `tree` without the key at `path` (dictionaries that become empty go too)"""
+    out = copy.deepcopy(tree)
+    chain, d = [], out
+    for k in path[:-1]:
+        if not isinstance(d.get(k), dict):
+            return out
+        chain.append((d, k))
+        d = d[k]
+    d.pop(path[-1], None)
+    for parent, k in reversed(chain):
+        if parent[k] == {}:
+            del parent[k]
+    return out
+
+
+def named_keys_of(msg: str | None) -> list[str]:
+    """the configuration keys a diagnostic names: `'a.b': …` (configure's own checks) / `in key 'a.b': …` (validation errors), one per line"""
+    return re.findall(r"(?m)^(?:in key )?'([^'\n]*)':", msg or "")
+
+
+def undecodable_env(env: dict | None) -> list[str]:
+    """variables of list- / dictionary-typed settings whose text is no JSON: pydantic-settings' environment source refuses them while it
+    gathers the variables — whether or not a source of higher precedence sets the same key"""
+    out = []
+    for name, text in (env or {}).items():
+        low = name.lower()
+        if low.startswith(ENV_PREFIX) and field_is_complex(low[len(ENV_PREFIX):].split(ENV_DELIM), strictly=True):
+            try:
+                json.loads(text)
+            except ValueError:
+                out.append(name)
+    return out
+
+
+# --------------------------------------------------------------------------------------------
 # running the real code
 # --------------------------------------------------------------------------------------------
 
@@ -881,6 +1125,10 @@ def validate_tree(base: Path, tree: dict) -> dict:
         import pydantic
         try:
             cfg = api._configuration_model.model_validate(copy.deepcopy(tree))
+            if not encodable(cfg.model_dump(mode="json")):
+                # the settings that validation returns hold a text that cannot be written anywhere (independent check: `str.encode`)
+                bad = [".".join(p) for p, v in leaves(cfg.model_dump(mode="json")) if not encodable(v)]
+                return {"kind": "invalid", "errors": [f"{k}: not valid Unicode" for k in bad][:5]}
             return {"kind": "ok", "dump": cfg.model_dump(mode="json"),
                     "fields_set": sorted(cfg.generate.model_fields_set) if cfg.generate is not None else None}
         except pydantic.ValidationError as e:
